@@ -930,6 +930,9 @@ class DocCheck:
                 got_s = join_pages(got, e2)
                 self.req(f"pages {sel_txt(sel)} {mp}", got_s, "select",
                          {"doc": doc, "selection": {"page_numbers": sel, "maxpages": mp}})
+                if self.in_domain and e2 is None:
+                    self.req(f"spec.select {sel_txt(sel)} {mp}", got_s, "spec.select",
+                             {"doc": doc, "selection": {"page_numbers": sel, "maxpages": mp}})
                 exp_sel = spec_select(items, sel, mp)
                 beyond = any((not sel or i in sel) and mp and i >= mp for i in range(n))
                 dropped = len(exp_sel) < n
@@ -976,6 +979,8 @@ class DocCheck:
                          {"rotate": rot, "mediabox": [str(x) for x in mb], "pt": g})
                 self.ctx.branch(f"render:rot{rot}" if rot % 90 == 0 else "render:rot-other")
                 if self.in_domain:
+                    self.req(f"spec.render {rot} {box_txt(mb)} {fs(pt[0])} {fs(pt[1])}", got_r, "spec.render",
+                             {"rotate": rot, "mediabox": [str(x) for x in mb], "pt": g})
                     # rot and mb are what get_pages reported; the attribute check above ties them to the document
                     want = spec_render(rot, mb, pt)
                     if want is not None and mb[0] <= mb[2] and mb[1] <= mb[3] and want != got_r:
@@ -1073,13 +1078,14 @@ def flush(ctx: C.Ctx, checks: List[DocCheck]) -> None:
         for (line, impl, op, inp) in c.requests:
             m = outs[i]
             i += 1
-            if op == "spec.pages":
+            if op.startswith("spec."):
                 # Lean specification vs implementation: a property failure (already reported through the Python
                 # twin unless the twins differ)
+                ctx.branch("lean-" + op + (":outside-domain" if m == "outside-domain" else ""))
                 if m != impl and m != "outside-domain" and c.first_fail is None and not reported:
                     reported = True
-                    c.fail("implementation differs from the Lean specification of the page list", m, impl,
-                           {"op": "spec.pages"})
+                    c.fail("implementation differs from the Lean specification (" + op + ")", m, impl,
+                           {"op": op})
                     ctx.fail(c.first_fail)
                 continue
             if m != impl and not reported:
@@ -1178,6 +1184,12 @@ def run_render_table(ctx: C.Ctx) -> None:
         for inp, i_out, m_out in zip(inputs, impl, ctx.driver.ask(lines)):
             if i_out != m_out:
                 ctx.disagree("render", inp, i_out, m_out)
+        for inp, i_out, s_out in zip(inputs, impl, ctx.driver.ask(["spec." + ln for ln in lines])):
+            ctx.branch("lean-spec.render" + (":outside-domain" if s_out == "outside-domain" else ""))
+            if s_out != "outside-domain" and i_out != s_out:
+                ctx.fail(C.Failure("process_page/begin_page differ from the Lean specification of the page "
+                                   "coordinate system", {"render": inp}, s_out, i_out,
+                                   {"op": "spec.render", "rotate": inp["rotate"]}))
 
 
 def run_rotate_table(ctx: C.Ctx) -> None:
